@@ -183,11 +183,14 @@ AttachAttackers(g) ==
 AddGAttacker(g, reqId, ws) ==
   /\ gS[g].exists /\ Len(gS[g].atk) < GMaxAtk /\ (ws => gS[g].nodes # <<>>)
   /\ LET E == IF ws THEN {gS[g].nodes[1].h} ELSE {}
-         R == IF ws THEN {gS[g].nodes[1].h, gS[g].nodes[Len(gS[g].nodes)].h} ELSE {} IN
+         R == IF ws THEN {gS[g].nodes[1].h, gS[g].nodes[Len(gS[g].nodes)].h} ELSE {}
+         \* names: "gb" with an explicit id; otherwise "ga", except that the SECOND attacker of a graph is called "ga:2" - the
+         \* text a file would use to tell a third attacker named "ga" with id 2 from the first one
+         nm == IF reqId # NoId THEN "gb" ELSE IF Len(gS[g].atk) = 1 THEN "ga:2" ELSE "ga" IN
      IF reqId # NoId /\ reqId \in GAtkIds(gS[g])
-     THEN Set(g, gS[g], [op |-> "AddGAttacker", g |-> g, h |-> gNextH, reqId |-> reqId, res |-> "exc", e |-> E, r |-> R])
-     ELSE Set(g, DoAddAttacker(gS[g], gNextH, IF reqId # NoId THEN reqId ELSE gS[g].nextAtk, IF reqId # NoId THEN "gb" ELSE "ga", E, R),
-              [op |-> "AddGAttacker", g |-> g, h |-> gNextH, reqId |-> reqId, res |-> "ok", e |-> E, r |-> R])
+     THEN Set(g, gS[g], [op |-> "AddGAttacker", g |-> g, h |-> gNextH, reqId |-> reqId, res |-> "exc", e |-> E, r |-> R, name |-> nm])
+     ELSE Set(g, DoAddAttacker(gS[g], gNextH, IF reqId # NoId THEN reqId ELSE gS[g].nextAtk, nm, E, R),
+              [op |-> "AddGAttacker", g |-> g, h |-> gNextH, reqId |-> reqId, res |-> "ok", e |-> E, r |-> R, name |-> nm])
   /\ BumpG(1)
 RemoveGAttacker(g, a) ==
   /\ gS[g].exists /\ a \in AtkHs(gS[g])
@@ -291,7 +294,7 @@ SlotObs(s) ==
                  V |-> s.nodes[k].V, N |-> s.nodes[k].N, tags |-> s.nodes[k].tags, extras |-> s.nodes[k].extras,
                  ttc |-> s.nodes[k].ttc] : k \in DOMAIN s.nodes },
     ch |-> s.ch, pa |-> s.pa,
-    atk |-> { [h |-> s.atk[k].h, name |-> s.atk[k].name] : k \in DOMAIN s.atk },
+    atk |-> { [h |-> s.atk[k].h, name |-> s.atk[k].name, id |-> s.atk[k].id] : k \in DOMAIN s.atk },
     reached |-> s.reached, entry |-> s.entry, compBy |-> s.compBy ]
 GObs == [main |-> SlotObs(gS["main"]), copy |-> SlotObs(gS["copy"])]
 GView == <<vAssets, vAssocs, vAtk, gS>>
